@@ -358,7 +358,7 @@ def isArm : Ev → Bool
 /-- `setCfg`, `crit`, `failNext`, `failBind` do not touch the links; a verdict `stamp` rewrites the four
 verdict fields (`weak`, `loss_degraded`, `cc_backing_off`, `cc_target_bps`) of one link and nothing else;
 `syncTimeout` rewrites the timeout copy of every link and nothing else. -/
-theorem cfg_links (s : Sys F) (e : Ev) (h : isArm e = false) (j : Nat) (l : FLink F)
+theorem cfg_links (s : Sys F) (e : Ev) (h : isArm e = false) (hnr : e.isReload = false) (j : Nat) (l : FLink F)
     (hl : s.links[j]? = some l) :
     ∃ l', (step s e).1.links[j]? = some l' ∧
       (l' = l ∨ (∃ weak ld ccb cct,
@@ -369,6 +369,7 @@ theorem cfg_links (s : Sys F) (e : Ev) (h : isArm e = false) (j : Nat) (l : FLin
   | uplink now cid data => cases h
   | flush now => cases h
   | hk now => cases h
+  | reload now addrs outs => cases hnr
   | setCfg cfg => exact ⟨l, hl, .inl rfl⟩
   | crit d => exact ⟨l, hl, .inl rfl⟩
   | failNext c => exact ⟨l, hl, .inl rfl⟩
